@@ -187,4 +187,20 @@ def signOutPath (output : Option Str) (file : Str) (kind : PayloadKind) (lastKey
     | .link name => lastKeyid.map (fun k => name ++ '.' :: trunc8 k ++ lit ".link")
     | .layout => some file
 
+
+/-! ## in-toto-sign --verify and in-toto-verify: every given key counts -/
+
+/-- `_verify_metadata`: the keys are checked in the order given; the first check that fails
+decides (`sigCheckFailed`), a check that raises anything else is a library failure; only if all
+pass is the outcome a success. `results` = per key, what its signature check does. -/
+def signVerifyOutcome : List CliOutcome → CliOutcome
+  | [] => .success
+  | .success :: rest => signVerifyOutcome rest
+  | o :: _ => o
+
+/-- in-toto-verify: the key dictionary handed to `in_toto_verify` is the union of what the three key
+options load (later options add to, never replace, earlier ones; same key id = same entry). -/
+def verifyKeyIds (layoutKeys gpg verificationKeys : List Str) : List Str :=
+  dedup (layoutKeys ++ gpg ++ verificationKeys)
+
 end InToto
